@@ -160,16 +160,63 @@ theorem map_fst_zip_fun {α β γ : Type} (F : α → γ) (l : List α) (r : Lis
     | nil => simp at h
     | cons b rs => simp only [List.length_cons, Nat.add_right_cancel_iff] at h; simp [ih rs h]
 
+/-- when every send went through, the cache is the old ledger plus the entries of all sends, in order -/
+theorem runSends_ok (locked : Addr → Coins) (L : Ledger) (ts : List Transfer)
+    (h : (runSends locked L ts).2 = true) : (runSends locked L ts).1 = L ++ ts.flatMap Transfer.ledger := by
+  induction ts generalizing L with
+  | nil => simp [runSends]
+  | cons t rest ih =>
+    unfold runSends at h ⊢
+    split
+    · rename_i hc
+      simp only [hc, if_true] at h
+      rw [ih _ h]
+      simp [List.append_assoc]
+    · rename_i hc
+      simp [hc] at h
+
+/-- the sends of `closeSettlement`, flattened, are its ledger entries -/
+theorem closeSends_ledger {m c : Addr} {split : Denom → Nat} {st : Settlement} {ex : Coins}
+    (hex : exchangeSplit split st.feeInputs.total = .ok ex) :
+    closeSettlement m c split st = .ok ((closeSends m c st ex).flatMap Transfer.ledger) := by
+  unfold closeSettlement collectFees closeSends
+  rw [hex]
+  simp [Transfer.ledger, Indexed.debits, Indexed.credits, List.append_assoc]
+
+/-- an accepted `close`: the cache that is committed is the old state with the order records rewritten and
+the ledger entries of `closeSettlement` (all of them: every send went through) appended -/
+theorem close_unfold {s s' : KState} {m c : Addr} {st : Settlement} (h : s.close m c st = .ok s') :
+    ∃ L, closeSettlement m c s.splitOf st = .ok L ∧
+      s' = { s with
+        orders := (match st.partialLeft with
+          | some left => (s.orders.filter (fun o => !(st.fullyFilled.map (·.order.id)).contains o.id)).map
+              (fun o => if o.id = left.id then left else o)
+          | none => s.orders.filter (fun o => !(st.fullyFilled.map (·.order.id)).contains o.id)),
+        ledger := s.ledger ++ L } := by
+  unfold KState.close at h
+  split at h
+  · rename_i cache hc
+    simp only [Except.ok.injEq] at h
+    subst h
+    unfold KState.closeCached at hc
+    split at hc
+    · simp at hc
+    · rename_i ex hex
+      by_cases hr : (runSends (lockedOf (s.keptOrders st)) s.ledger (closeSends m c st ex)).2 = true
+      · simp only [hr, if_true, Prod.mk.injEq, and_true] at hc
+        refine ⟨_, closeSends_ledger hex, ?_⟩
+        rw [← hc, runSends_ok _ _ _ hr]
+        rfl
+      · simp [hr] at hc
+  · simp at h
+
 theorem close_orders {s s' : KState} {m c : Addr} {st : Settlement} (h : s.close m c st = .ok s') :
     s'.nextId = s.nextId ∧
     s'.orders = (match st.partialLeft with
       | some left => (s.orders.filter (fun o => !(st.fullyFilled.map (·.order.id)).contains o.id)).map
           (fun o => if o.id = left.id then left else o)
       | none => s.orders.filter (fun o => !(st.fullyFilled.map (·.order.id)).contains o.id)) := by
-  unfold KState.close at h
-  split at h; · simp at h
-  simp only [Except.ok.injEq] at h
-  subst h
+  obtain ⟨L, _, rfl⟩ := close_unfold h
   exact ⟨rfl, rfl⟩
 
 theorem storeInv_close {s s' : KState} {m c : Addr} {st : Settlement} (hI : StoreInv s)
